@@ -50,6 +50,7 @@ fn main() {
         let code = match id {
             "C05" => c05::worker(&args[3..]),
             "C11" => c11::worker(&args[3..]),
+            "C17" => c17::worker(&args[3..]),
             _ => 2,
         };
         std::process::exit(code);
